@@ -1,7 +1,9 @@
 #!/usr/bin/env python3
-"""usage: tools/mkagentprompt.py <ID> [first_n]  - writes /tmp/agents/<ID>/PROMPT.md (property text + protocol only)."""
+"""usage: tools/mkagentprompt.py <ID> [first_n] [count]  - writes /tmp/agents/<ID>/PROMPT.md (property text + protocol only)."""
 import json, sys, os
 pid = sys.argv[1]; first = int(sys.argv[2]) if len(sys.argv) > 2 else 4
+count = int(sys.argv[3]) if len(sys.argv) > 3 else 3
+nums = ', '.join(str(first+i) for i in range(count)); word = {1:'One',2:'Two',3:'Three'}[count]
 p = next(json.loads(l) for l in open('/verif/properties.jsonl') if json.loads(l)['id'] == pid)
 os.makedirs(f'/tmp/agents/{pid}', exist_ok=True)
 txt = f"""# Task: seed realistic property-breaking changes into a Python library
@@ -24,7 +26,7 @@ Code anchors: {json.dumps(p['anchors'].get('files', []))}
 
 ## What to produce
 
-Three *different* source changes to the library (numbered {first}, {first+1}, {first+2}), each of which
+{word} *different* source changes to the library (numbered {nums}), each of which
 
 1. makes the library violate the property above for inputs inside the stated domain,
 2. still imports/compiles (numba `@njit` functions must still compile) and
@@ -37,7 +39,7 @@ Prefer changes that need something **specific** to manifest: a particular multi-
 operations, an unusual but valid input (degenerate/touching/parallel/nested/identical placement, extreme
 but in-domain aspect ratio or size, far from the origin, a special direction), a rarely taken branch, or
 two cooperating sites that each look fine alone. Changes that a random generic-position unit-scale input
-would expose immediately are of little value. Make the three changes touch different mechanisms.
+would expose immediately are of little value. Make the changes touch different mechanisms.
 
 For each change n write:
 
@@ -68,7 +70,7 @@ For each change n write:
 
 For every change verify yourself: demo exits 0 without the change, non-zero with it; test suite unchanged
 with it. When done, leave the worktree clean (`git checkout -- .`) and reply with a short list: for each n
-one line saying what was changed and what it needs to manifest. If you cannot produce three, produce
+one line saying what was changed and what it needs to manifest. If you cannot produce all of them, produce
 what you can.
 """
 open(f'/tmp/agents/{pid}/PROMPT.md', 'w').write(txt)
